@@ -65,6 +65,12 @@ class FnSpec:
         self.opts.update(kw)
         return self
 
+    def anf(self, head, prefix, bind_root=False, nth=0, bind_operands=False):
+        """R19: name the intermediate values of the arithmetic expression that follows `head` (vx_<prefix>1, ...)"""
+        self.unit.prepasses.setdefault(self.file, []).append(
+            dict(fn=self.name, impl=self.impl, fnnth=self.nth, head=head, prefix=prefix, bind_root=bind_root, nth=nth, bind_operands=bind_operands))
+        return self
+
 
 def _respace(src, it):
     """text of the Self type of an impl item (tokens after the top-level `for`, before `where`/`{`)"""
@@ -119,6 +125,7 @@ class Unit:
         self.srcs = {}
         self.rewrite_log = []
         self.nra = []         # NRA lemma objects (vx.nra)
+        self.prepasses = {}   # file -> list of let-introduction requests
         self.notes = []
 
     # ---- definition API -------------------------------------------------
@@ -144,7 +151,19 @@ class Unit:
 
     def src(self, rel):
         if rel not in self.srcs:
-            self.srcs[rel] = Src(REPO, rel)
+            s = Src(REPO, rel)
+            # R19 let-introduction pre-passes (vx/anf.py): applied to the text, one statement at a time
+            for pp in self.prepasses.get(rel, []):
+                from .anf import anf_text
+                it = s.find("fn", pp["fn"], impl=pp["impl"], nth=pp["fnnth"])
+                span = (s.toks[it.start].start, s.toks[it.end - 1].end)
+                new_text, log = anf_text(s.text, rel, span, pp["head"], pp["prefix"], pp["bind_root"], pp["nth"], pp["bind_operands"])
+                if log:
+                    log["at"] = f"{rel}:{s.toks[it.start].line}"
+                    log["fn"] = pp["fn"]
+                    self.rewrite_log.append(log)
+                    s = Src(REPO, rel, text=new_text)
+            self.srcs[rel] = s
         return self.srcs[rel]
 
     # ---- generation -----------------------------------------------------
